@@ -8,6 +8,9 @@ Extracted (fail closed; strict textual patterns, anything else is refused):
   deliver_len_bits      width of IMsgReceiver::OnMessageReceived's / IRawDataReceiver::OnDataReceived's number_of_bytes
   send_len_bits         width of IConnection::SendData's number_of_bytes
   preamble_low_first    SetMsgReceiver: byte 0 = preamble & 0x00FF, byte 1 = preamble >> 8
+  oversize_guard_bound  the literal B of `if (header->PayloadSize > B - SizeOfHeader) { ...discard...; return; }` that must stand in front
+                        of `uint32 msgSize = SizeOfHeader + header->PayloadSize;` in HandleFragmentedData (ResetFragmentation();
+                        OnDataReceived(data, count);) and in HandleUnfragmentedData (OnDataReceived(std::addressof(data[1]), count - 1);)
   asserts_compiled      the two assert(...) calls of HandleFragmentedData (outside DEBUG_CODE)
   conn_functions        names of the functions of the non-__arm__ branch, in source order (the hand-written model has one
                         definition per name; Model/Conn.v proves nothing about names, the harness compares the list)
@@ -151,6 +154,19 @@ def run():
             raise Refuse("HandleFragmentedData: local %s is not declared uint32" % v)
     if not re.search(r"uint32\s+msgSize\s*=\s*SizeOfHeader\s*\+\s*header->PayloadSize\s*;", hu):
         raise Refuse("HandleUnfragmentedData: msgSize is not uint32 SizeOfHeader + header->PayloadSize")
+    # the guard against a PayloadSize that would wrap uint32 msgSize, in both paths, in front of the msgSize computation
+    g = r"if \(header->PayloadSize > (0x[0-9A-Fa-f]+) - SizeOfHeader\) \{ %s return; \} uint32 msgSize = SizeOfHeader \+ header->PayloadSize;"
+    mf = re.search(g % r"ResetFragmentation\(\); OnDataReceived\(data, count\);", hf)
+    mu = re.search(g % r"OnDataReceived\(std::addressof\(data\[1\]\), count - 1\);", hu)
+    if not mf:
+        raise Refuse("HandleFragmentedData: oversize-PayloadSize guard (reset + rescan of the data) not found in front of msgSize")
+    if not mu:
+        raise Refuse("HandleUnfragmentedData: oversize-PayloadSize guard (skip one byte + rescan) not found in front of msgSize")
+    if mf.group(1).lower() != mu.group(1).lower():
+        raise Refuse("the two oversize-PayloadSize guards use different bounds")
+    guard_bound = int(mf.group(1), 16)
+    if hf.count("header->PayloadSize") != 2 or hu.count("header->PayloadSize") != 2:
+        raise Refuse("header->PayloadSize is used in more places than the guard and the msgSize computation")
     fp = hashlib.sha256("\n".join(n + ":" + b for n, b in modelled).encode()).hexdigest()
     out = ["From Coq Require Import NArith.", ""]
     out.append("Definition hdr_fields : list (string * N) := [\n    %s\n  ]." % ";\n    ".join(
@@ -160,6 +176,7 @@ def run():
     out.append("Definition send_len_bits : N := 16%N.     (* SendData(const uint8*, const uint16& number_of_bytes) *)")
     out.append("Definition preamble_low_first : bool := true.  (* byte 0 = preamble & 0x00FF, byte 1 = preamble >> 8 *)")
     out.append("Definition asserts_in_fragmented_path : N := %d%%N." % n_assert)
+    out.append("Definition oversize_guard_bound : N := %d%%N.   (* if (header->PayloadSize > 0x%X - SizeOfHeader) discard, in both paths *)" % (guard_bound, guard_bound))
     out.append("Definition conn_functions : list string := [\n    %s\n  ]." % ";\n    ".join(
         "%s  (* %s *)" % (coq_bs(n), n) for n, _ in modelled))
     out.append("Definition conn_fingerprint : string := %s." % coq_bs(fp))
